@@ -45,6 +45,23 @@ prop("C13", True, "sched", MC, "stateless model checking (preemption-bounded DFS
      "Every interleaving with <= 3 (quick) / 5 (thorough) preemptions, at single atomic load/CAS granularity, of 9-13 configurations of concurrent Enqueue/Dequeue (incl. a one-element queue and a lagging tail); each complete history checked against the sequential FIFO over all linearisation orders; no loss/duplication after a final drain; Length/IsEmpty at quiescence.",
      TRUST + "SC interleavings (Go atomics); <= 4 threads, <= 6 operations.", "DESIGN.md §2, §5/C13")
 
+ENGINE_NOTE = TRUST + "Real kernel sockets (AF_UNIX), this kernel's epoll semantics; delay-bounded schedules (every departure from the default schedule costs one unit), environment deviations limited to answers the kernel could give; bounds per scenario are in the evidence. "
+prop("C01", True, "sched", MC, "stateless model checking (delay- and deviation-bounded DFS under a cooperative scheduler) of the real engine on real unix sockets",
+     "For each (LT|ET|ET+chunk, segmentation, FIN placement): every schedule within the delay bound x every per-callback consumption choice (13 read operations) and LT short-read deviation within the deviation bound; positional content oracle, consumed+InboundBuffered == bytes read(2), views intact until the next read call, everything offered before OnClose, nothing left unread at quiescence; plus the pending-outbound-then-close scenario.",
+     ENGINE_NOTE + "Server side, 1 loop, reactor mode; tcp/client/poll_opt/gc_opt variants only where listed in the evidence units.", "DESIGN.md §5/C01")
+prop("C02", True, "sched", MC, "stateless model checking (delay- and deviation-bounded DFS) of the real engine's write path on real unix sockets",
+     "For each (LT|ET, write program over Write/Writev/ReadFrom+Flush/AsyncWrite/AsyncWritev/OnOpen reply): every schedule within the delay bound x every kernel acceptance pattern (short writes, EAGAIN) within the deviation bound, plus real back-pressure; the peer must receive exactly the accepted payloads contiguous and in effect order, OutboundBuffered accounting against the ledger, nothing stays unsent while the peer reads.",
+     ENGINE_NOTE, "DESIGN.md §5/C02")
+prop("C04", True, "sched", MC, "stateless model checking (delay-bounded DFS) of the real engine over a catalogue of connection histories",
+     "26 connection histories (peer close, half close, Close action from OnOpen/OnTraffic/OnClose, async Close/CloseWithCallback/Wake/AsyncWrite racing with closes, EventLoop.Close inside a callback, failing Write, late requests after descriptor re-use, shutdown with open connections, cross-loop closes) x {LT,ET}: per-connection lifecycle monitor, error classification, CountConnections at quiescence, on every explored execution.",
+     ENGINE_NOTE, "DESIGN.md §5/C04")
+prop("C06", True, "sched", MC, "stateless model checking (delay-bounded DFS, virtual time) of the real engine's shutdown paths",
+     "Shutdown requested from every documented source (Engine.Stop, package Stop, Shutdown action from OnOpen/OnTraffic/OnClose/OnTick/OnBoot, Client.Stop) in idle/accepting/pending-output/async-in-flight/ticker/two-listener situations x {LT,ET}: Run returns nil within the step horizon, OnShutdown once, every opened connection closed once before the return, nothing afterwards.",
+     ENGINE_NOTE + "Bounded time = bounded scheduler steps under fairness; virtual clock.", "DESIGN.md §5/C06")
+prop("C07", True, "sched", MC, "stateless model checking (delay-bounded DFS) of the real engine with a descriptor ledger in the system-call shim as oracle",
+     "The C04 histories and the C06 shutdown scenarios evaluated with the ledger: ownership of every fd number, framework calls on closed/foreign descriptors, double close, leaks at the return of Run, unix-socket file removal.",
+     ENGINE_NOTE + "Descriptors created by package net are outside the ledger.", "DESIGN.md §5/C07")
+
 REASON_WIP = "check under construction in this build phase (machinery not committed yet)"
 for i in range(1, 21):
     id = "C%02d" % i
